@@ -4069,6 +4069,10 @@ class SFTPClient:
                 if remote_only and not self.supports_remote_copy:
                     raise SFTPOpUnsupported('Remote copy not supported')
 
+                if srcattrs.size is None:
+                    # A directory listing need not include the file sizes
+                    srcattrs = await srcfs.stat(srcpath)
+
                 await _SFTPFileCopier(block_size, max_requests,
                                       srcattrs.size or 0, sparse,
                                       srcfs, dstfs, srcpath, dstpath,
